@@ -144,7 +144,8 @@ func (g *G) props(scope int, cfg *Cfg) []ref.Prop {
 	return res
 }
 
-// Foreign inserts n properties that MQTT defines but does NOT allow in this
+// Foreign inserts n properties that MQTT does NOT allow where they are put:
+// properties it defines but not for this
 // packet (e.g. a subscription identifier in a CONNACK, a topic alias among the
 // will properties) at tape-drawn positions of its property sections. The
 // result is no longer a valid packet; it is a base for faults whose rejection
@@ -161,10 +162,19 @@ func Foreign(t *sim.Tape, a *ref.AP, n int) int {
 			scope, list = ref.WillScope, &a.Will.Props
 		}
 		var cands []*ref.PropDef
-		for k := range ref.PropTable {
-			d := &ref.PropTable[k]
-			if d.In&(1<<uint(scope)) == 0 {
+		if len(*list) > 0 && t.Bool(1, 3) {
+			// ... or a property the packet already has, a second time (MQTT allows
+			// only user properties and subscription identifiers to repeat)
+			if d := ref.Lookup((*list)[t.Int(len(*list))].ID); d != nil && d.ID != 0x26 {
 				cands = append(cands, d)
+			}
+		}
+		if len(cands) == 0 {
+			for k := range ref.PropTable {
+				d := &ref.PropTable[k]
+				if d.In&(1<<uint(scope)) == 0 {
+					cands = append(cands, d)
+				}
 			}
 		}
 		if len(cands) == 0 {
@@ -182,6 +192,16 @@ func Foreign(t *sim.Tape, a *ref.AP, n int) int {
 
 // collideFilters gives two filters of the packet names with the same 32-bit hash.
 func (g *G) collideFilters(a *ref.AP) {
+	if n := len(a.Filters); n >= 2 && g.T.Bool(1, 6) {
+		// the same filter more than once in one list (legal; a list is not a set)
+		k := 1 + g.T.Int(2)
+		for ; k > 0; k-- {
+			i, j := g.T.Int(n), g.T.Int(n)
+			if i != j {
+				a.Filters[j].Name = append([]byte{}, a.Filters[i].Name...)
+			}
+		}
+	}
 	if n := len(a.Filters); n >= 2 && g.T.Bool(1, 12) {
 		i, j := g.T.Int(n), g.T.Int(n)
 		if i != j {
